@@ -8,7 +8,8 @@ META = {
     "text": "Deductive (unbounded): generator.node_to_string is verified from its AST by structural induction for trees of any size (recursive calls through the "
             "contract, measure n - idx): the returned string is well formed and the parser reads it as the value of the subtree, where the parser is specified by four "
             "composition rules (leaf, f(E), (E)op(E) for the four infix operators, f(E,E)) -- the assumption that sympy parses fully parenthesised text compositionally. "
-            "Structural obligations on the two symbol tables (same definitions for shared names, parameters real, x positive, pow/sqrt/log on absolute values). "
+            "The writers region of generate_equations is verified (shared with C08): every tree is printed on ONE physical line of its file (PrettyPrinter widened before "
+            "a text can wrap), so that line k of trees_<n>.txt is tree k. Structural obligations on the two symbol tables (same definitions for shared names, parameters real, x positive, pow/sqrt/log on absolute values). "
             "Bounded stand-in on the real generation code (not counted as proved; covers sympify, the ESR printer and the file round trip): for every line of trees_<n>.txt / all_equations_<n>.txt of the generated libraries "
             "(six shipped bases and random sub-bases, complexities as listed; sampled lines above a size limit in the quick tier) the string, "
             "parsed with the generation-stage symbol table and with the fitting-stage Likelihood.run_sympify, evaluates like the tree under "
@@ -27,6 +28,8 @@ def check(run):
     if dst != "unsupported" and D.canary(run, "generation/generator.py", "node_to_string", c_generator.node_to_string_contract) is False:
         raise RuntimeError("canary verified: engine vacuous on node_to_string")
     sfailed = D.symtab_obligations(run)
+    # line k of the tree files is tree k: the writers of generate_equations print one physical line per tree (shared with C08)
+    wfailed, wsfailed, wfound = D.generation_writers(run, tier)
     run.assume("A-sympy: sympify parses fully parenthesised text compositionally (the four parser rules); lambdify evaluates what it is given",
                "tree precondition: arities 0/1/2, children present and after their parent (established by check_tree; bounded in C01)")
     run.trust("pyvc", "z3 5.1.0", "pyvc.symtab")
@@ -43,6 +46,9 @@ def check(run):
                           {"harness": "rt_gen.py", "payload": {"mode": "c02", "jobs": [dict(f["job"], sample=None)]}, "fresh_copy": True})
         if rr["cases"]:
             run.sample({"library": g[0]["runname"], "lines_checked": rr["cases"]})
+    if wfailed and not wfound and not run.violations:
+        from checks.C14 import report_unproved
+        report_unproved(run, wfailed, False, "generator.generate_equations (writers region)")
     if dfailed and not run.violations:
         from checks.C14 import report_unproved
         report_unproved(run, dfailed, False, "generator.node_to_string")
